@@ -47,6 +47,87 @@ Definition add_seen (st : rstate) (p : string) : rstate :=
 
 Definition vstr (s : string) : value := VStr s.
 
+(** The loops of the interpreter, parametrised by the recursive calls (so that facts about
+    them are stated once, for any callee). *)
+Definition callback := value -> rstate -> res (value * rstate).
+
+(** Sequence arm: each element under a clone of the state with its index pushed *)
+Fixpoint seq_loop (call : callback) (st : rstate) (s : list value) (idx : nat) : res (list value) :=
+  match s with
+  | [] => Ok []
+  | it :: s' =>
+      '(e, _) <- call it (push_list_index st idx) ;;
+      es <- seq_loop call st s' (S idx) ;;
+      Ok (e :: es)
+  end.
+
+(** ValueList arm: every layer interpolated under a clone of the state and merged over the base *)
+Fixpoint vlist_loop (call : callback) (st : rstate) (l : list value) (r : value) : res value :=
+  match l with
+  | [] => Ok r
+  | x :: l' =>
+      '(iv, st1) <- call x st ;;
+      r' <- value_merge (current_key st1) r iv ;;
+      vlist_loop call st l' r'
+  end.
+
+(** Mapping::interpolate *)
+Fixpoint map_loop (call : callback) (st : rstate) (es : list entry) (acc : mapping) : res mapping :=
+  match es with
+  | [] => Ok acc
+  | (k, v, c, o) :: es' =>
+      st1 <- push_mapping_key st k ;;
+      '(v', st2) <- call v st1 ;;
+      fv <- flattened (current_key st2) v' ;;
+      acc' <- insert_impl acc k fv c o ;;
+      map_loop call st es' acc'
+  end.
+
+(** the descent of Token::resolve through the reference path *)
+Fixpoint walk_loop (sov : callback) (path : string) (segs : list string) (v : value) (st : rstate)
+         (trav : list string) : res (value * rstate) :=
+  match segs with
+  | [] => Ok (v, st)
+  | key :: segs' =>
+      '(newv, st') <- sov v st ;;
+      match newv with
+      | VMap m =>
+          match m_get (VStr key) m with
+          | None => Err (EMissingKey path key (current_key st'))
+          | Some v' => walk_loop sov path segs' v' st' (trav ++ [key])
+          end
+      | VSeq _ => Err (ELookupSeq path key (current_key st'))
+      | VStr _ | VList _ => Panic PResolveLookup
+      | _ => Err (ELookupKind path key (current_key st') (join ":" trav) (variant newv))
+      end
+  end.
+
+(** interpolate_token_slice: fresh clone of the state per token; the caller's state is unchanged *)
+Fixpoint slice_loop (resolve : token -> rstate -> res (value * rstate)) (while_str call : callback)
+         (st : rstate) (ts : list token) : res string :=
+  match ts with
+  | [] => Ok ""
+  | t :: ts' =>
+      '(v, st1) <- resolve t st ;;
+      '(v', st2) <- while_str v st1 ;;
+      '(v'', _) <- (if is_mapping v' || is_sequence v'
+                    then call v' st2     (* members are rendered before the text is taken *)
+                    else Ok (v', st2)) ;;
+      s <- raw_string v'' ;;
+      rest <- slice_loop resolve while_str call st ts' ;;
+      Ok (s ++ rest)%string
+  end.
+
+(** layers of a ValueList met during the descent: String layers are interpolated under a clone *)
+Fixpoint sov_loop (call : callback) (st : rstate) (l : list value) : res (list value) :=
+  match l with
+  | [] => Ok []
+  | x :: l' =>
+      x' <- (if is_string x then '(y, _) <- call x st ;; Ok y else Ok x) ;;
+      r <- sov_loop call st l' ;;
+      Ok (x' :: r)
+  end.
+
 (** The interpreter. *)
 Fixpoint interp (f : nat) (root : mapping) (v : value) (st : rstate) {struct f}
   : res (value * rstate) :=
@@ -62,26 +143,8 @@ Fixpoint interp (f : nat) (root : mapping) (v : value) (st : rstate) {struct f}
           | Parsed t => token_render f' root t st
           end
       | VMap m => m' <- mapping_interp f' root m st ;; Ok (VMap m', st)
-      | VSeq s =>
-          l <- (fix go (s : list value) (idx : nat) {struct s} : res (list value) :=
-                  match s with
-                  | [] => Ok []
-                  | it :: s' =>
-                      '(e, _) <- interp f' root it (push_list_index st idx) ;;
-                      es <- go s' (S idx) ;;
-                      Ok (e :: es)
-                  end) s 0 ;;
-          Ok (VSeq l, st)
-      | VList l =>
-          r <- (fix go (l : list value) (r : value) {struct l} : res value :=
-                  match l with
-                  | [] => Ok r
-                  | x :: l' =>
-                      '(iv, st1) <- interp f' root x st ;;
-                      r' <- value_merge (current_key st1) r iv ;;
-                      go l' r'
-                  end) l VNull ;;
-          interp f' root r st
+      | VSeq s => l <- seq_loop (interp f' root) st s 0 ;; Ok (VSeq l, st)
+      | VList l => r <- vlist_loop (interp f' root) st l VNull ;; interp f' root r st
       | _ => Ok (v, st)
       end
   end
@@ -90,17 +153,7 @@ with mapping_interp (f : nat) (root : mapping) (m : mapping) (st : rstate) {stru
   : res mapping :=
   match f with
   | 0 => OutOfFuel
-  | S f' =>
-      (fix go (es : list entry) (acc : mapping) {struct es} : res mapping :=
-         match es with
-         | [] => Ok acc
-         | (k, v, c, o) :: es' =>
-             st1 <- push_mapping_key st k ;;
-             '(v', st2) <- interp f' root v st1 ;;
-             fv <- flattened (current_key st2) v' ;;
-             acc' <- insert_impl acc k fv c o ;;
-             go es' acc'
-         end) m []
+  | S f' => map_loop (interp f' root) st m []
   end
 
 with token_render (f : nat) (root : mapping) (t : token) (st : rstate) {struct f}
@@ -142,51 +195,18 @@ with token_resolve (f : nat) (root : mapping) (t : token) (st : rstate) {struct 
                   match m_get (VStr k0) root with
                   | None => Err (EMissingKey path k0 (current_key st2))
                   | Some v0 =>
-                      '(v, st3) <-
-                        (fix walk (segs : list string) (v : value) (st : rstate)
-                                  (trav : list string) {struct segs} : res (value * rstate) :=
-                           match segs with
-                           | [] => Ok (v, st)
-                           | key :: segs' =>
-                               '(newv, st') <- interp_sov f' root v st ;;
-                               match newv with
-                               | VMap m =>
-                                   match m_get (VStr key) m with
-                                   | None => Err (EMissingKey path key (current_key st'))
-                                   | Some v' => walk segs' v' st' (trav ++ [key])
-                                   end
-                               | VSeq _ => Err (ELookupSeq path key (current_key st'))
-                               | VStr _ | VList _ => Panic PResolveLookup
-                               | _ => Err (ELookupKind path key (current_key st')
-                                                       (join ":" trav) (variant newv))
-                               end
-                           end) segs v0 st2 [k0] ;;
+                      '(v, st3) <- walk_loop (interp_sov f' root) path segs v0 st2 [k0] ;;
                       interp_while f' root v st3
                   end
               end
       end
   end
 
-(** interpolate_token_slice: fresh clone of the state per token; the caller's state is
-    unchanged. *)
 with token_slice (f : nat) (root : mapping) (ts : list token) (st : rstate) {struct f}
   : res string :=
   match f with
   | 0 => OutOfFuel
-  | S f' =>
-      (fix go (ts : list token) {struct ts} : res string :=
-         match ts with
-         | [] => Ok ""
-         | t :: ts' =>
-             '(v, st1) <- token_resolve f' root t st ;;
-             '(v', st2) <- interp_while_str f' root v st1 ;;
-             '(v'', _) <- (if is_mapping v' || is_sequence v'
-                           then interp f' root v' st2     (* members are rendered before the text is taken *)
-                           else Ok (v', st2)) ;;
-             s <- raw_string v'' ;;
-             rest <- go ts' ;;
-             Ok (s ++ rest)%string
-         end) ts
+  | S f' => slice_loop (token_resolve f' root) (interp_while_str f' root) (interp f' root) st ts
   end
 
 (** interpolate_string_or_valuelist *)
@@ -198,15 +218,7 @@ with interp_sov (f : nat) (root : mapping) (v : value) (st : rstate) {struct f}
       match v with
       | VStr _ => interp f' root v st
       | VList l =>
-          i <- (fix go (l : list value) {struct l} : res (list value) :=
-                  match l with
-                  | [] => Ok []
-                  | x :: l' =>
-                      x' <- (if is_string x then '(y, _) <- interp f' root x st ;; Ok y
-                             else Ok x) ;;
-                      r <- go l' ;;
-                      Ok (x' :: r)
-                  end) l ;;
+          i <- sov_loop (interp f' root) st l ;;
           r <- flattened (current_key st) (VList i) ;;
           Ok (r, st)
       | _ => Ok (v, st)
